@@ -23,7 +23,7 @@ RULE = (
     "is one evaluation; restoration cases x lambda grid; non-trivial = non-zero kernel and image; distinct by construction"
 )
 BOUNDS = {
-    "quick": "H,W<=5, all kH<=H,kW<=W (even, odd, 1x1, 1xk, kx1): all tap x pixel impulse pairs; builders + restorations for H,W<=4 with 3 kernel kinds x lambda in {2^-10,1e-3,0.1,1,10} (+0 where invertible); gaussian radius 0..2, motion length 1..5 x 5 angles",
+    "quick": "H,W<=5, all kH<=H,kW<=W (even, odd, 1x1, 1xk, kx1): all tap x pixel impulse pairs; builders + restorations for H,W<=4 with 3 kernel kinds x lambda in {2^-10,1e-3,0.1,1,10} (+0 where invertible); gaussian radius 0..2, motion length 1..5 x 5 angles; integer-valued operators as int64/int32/float32 matrices",
     "thorough": "H,W<=7 impulses; restorations H,W<=6",
 }
 THOROUGH_STREAMS = 8
